@@ -6,7 +6,8 @@
 (* commit, age timer, commit failure handling exactly as coded).           *)
 (*                                                                         *)
 (* Kept apart on purpose:                                                  *)
-(*  * the transcription: actions Submit, Take, Add, SizeCommit*, AgeCommit**)
+(*  * the transcription: actions Submit, Take, AddOk, AddErr, SizeCommit*,  *)
+(*    AgeCommit*, AgeEmpty                                                 *)
 (*    with the go-ds-crdt "current delta" of a datastore batch (Put        *)
 (*    appends an element, Delete drops the key's elements from the delta   *)
 (*    and tombstones what the store holds - updateDeltaWithRemove);        *)
@@ -21,6 +22,11 @@
 (*   cfg.agereset : FALSE = as coded at the pinned commit (a commit error  *)
 (*                  on the age path leaves the expired timer alone);       *)
 (*                  TRUE  = the timer is re-armed after such an error.     *)
+(*   cfg.emptyskip: FALSE = as coded before the second repair (the age     *)
+(*                  timer, armed before the first item is added, fires     *)
+(*                  with nothing batched and Commit publishes a nil delta: *)
+(*                  go-ds-crdt panics); TRUE = the age path skips an empty *)
+(*                  batch.                                                 *)
 (***************************************************************************)
 EXTENDS Integers, Sequences, FiniteSets, TLC
 
@@ -49,14 +55,17 @@ VARIABLES
     timer,      \* "stopped" | "running" | "drained" (expired and its channel consumed)
     wpc,        \* batchWorker: "select" | "add" | "sizecommit" | "hung"
     fails,      \* armed datastore failures (the next `fails` commits fail on their first write)
+    rfails,     \* armed datastore READ failures (the next `rfails` set.Rmv queries fail: batch.Delete errors)
     accepted,   \* history: operations that returned nil, in submission order
-    ncomm,      \* history: how many of them are covered by successful commits
+    taken,      \* history: the accepted operations that were written (directly) or added to a batch, in order
+    ndropped,   \* history: accepted operations the worker dropped because adding them failed (only logged)
+    ncomm,      \* history: how many of `taken` are covered by successful commits
     nbatch,     \* history: operations added to the delta since the last successful commit
     tracked,    \* history: the pin tracker's view, built from Track/Untrack hand-offs
     res,        \* result of the last Submit: "ok" | "full" | "err" | "none"
     out         \* log lines the last action produces (hooks fire inside the commit)
 
-vars == <<cfg, pinset, queue, inhand, delta, cur, timer, wpc, fails, accepted, ncomm, nbatch, tracked, res, out>>
+vars == <<cfg, pinset, queue, inhand, delta, cur, timer, wpc, fails, rfails, accepted, taken, ndropped, ncomm, nbatch, tracked, res, out>>
 
 EmptyDelta == [elems |-> <<>>, tombs |-> <<>>]
 
@@ -82,6 +91,8 @@ UntrackL(c)    == [ev |-> "untrack", c |-> c]
 BatchedL(op, n) == [ev |-> "batched", op |-> op.k, c |-> op.c, cur |-> n]
 CommitL(r, n, ok) == [ev |-> "commit", reason |-> r, cur |-> n, ok |-> ok]
 StoreFailL     == [ev |-> "storefail"]
+ReadFailL      == [ev |-> "readfail"]
+BatchErrL(op, n) == [ev |-> "batcherr", op |-> op.k, c |-> op.c, cur |-> n]
 
 \* deleteHook once per tombstoned key, then putHook per element, in delta order
 Hooks(d) == [j \in 1..Len(d.tombs) |-> UntrackL(d.tombs[j])] \o
@@ -98,8 +109,8 @@ InitWith(c) ==
     /\ cfg = c
     /\ pinset = EmptyPinset /\ tracked = EmptyPinset
     /\ queue = <<>> /\ inhand = <<>> /\ delta = EmptyDelta
-    /\ cur = 0 /\ timer = "stopped" /\ wpc = "select" /\ fails = 0
-    /\ accepted = <<>> /\ ncomm = 0 /\ nbatch = 0
+    /\ cur = 0 /\ timer = "stopped" /\ wpc = "select" /\ fails = 0 /\ rfails = 0
+    /\ accepted = <<>> /\ taken = <<>> /\ ndropped = 0 /\ ncomm = 0 /\ nbatch = 0
     /\ res = "none" /\ out = <<>>
 
 (* LogPin / LogUnpin with batching: non-blocking send on the channel *)
@@ -109,7 +120,7 @@ SubmitBatched(op) ==
          THEN queue' = Append(queue, op) /\ accepted' = Append(accepted, op) /\ res' = "ok"
          ELSE UNCHANGED <<queue, accepted>> /\ res' = "full"
     /\ out' = <<>>
-    /\ UNCHANGED <<cfg, pinset, inhand, delta, cur, timer, wpc, fails, ncomm, nbatch, tracked>>
+    /\ UNCHANGED <<cfg, pinset, inhand, delta, cur, timer, wpc, fails, rfails, taken, ndropped, ncomm, nbatch, tracked>>
 
 (* LogPin / LogUnpin without batching: state.Add / state.Rm on the crdt datastore.
    Rm of a key the store does not hold writes nothing (no tombstones -> no publish). *)
@@ -117,21 +128,27 @@ SubmitDirect(op) ==
     /\ ~cfg.batching
     /\ LET d    == IF op.k = "pin" THEN DeltaPut(EmptyDelta, op.c, op.v) ELSE DeltaDel(EmptyDelta, pinset, op.c)
            noop == op.k = "unpin" /\ d.tombs = <<>>
-       IN IF noop
-            THEN /\ res' = "ok" /\ accepted' = Append(accepted, op) /\ ncomm' = ncomm + 1
-                 /\ out' = <<>> /\ UNCHANGED <<pinset, tracked, fails>>
+       IN IF op.k = "unpin" /\ rfails > 0
+            THEN \* set.Rmv starts with a query of the key's elements: a read error is returned to the caller
+                 /\ rfails' = rfails - 1 /\ res' = "err" /\ out' = <<ReadFailL>>
+                 /\ UNCHANGED <<pinset, tracked, accepted, taken, ncomm, fails>>
+          ELSE IF noop
+            THEN /\ res' = "ok" /\ accepted' = Append(accepted, op) /\ taken' = Append(taken, op) /\ ncomm' = ncomm + 1
+                 /\ out' = <<>> /\ UNCHANGED <<pinset, tracked, fails, rfails>>
             ELSE IF fails > 0
                    THEN /\ fails' = fails - 1 /\ res' = "err" /\ out' = <<StoreFailL>>
-                        /\ UNCHANGED <<pinset, tracked, accepted, ncomm>>
+                        /\ UNCHANGED <<pinset, tracked, accepted, taken, ncomm, rfails>>
                    ELSE /\ pinset' = Merge(pinset, d) /\ tracked' = ApplyHooks(tracked, Hooks(d))
-                        /\ accepted' = Append(accepted, op) /\ ncomm' = ncomm + 1
-                        /\ res' = "ok" /\ out' = Hooks(d) /\ UNCHANGED fails
-    /\ UNCHANGED <<cfg, queue, inhand, delta, cur, timer, wpc, nbatch>>
+                        /\ accepted' = Append(accepted, op) /\ taken' = Append(taken, op) /\ ncomm' = ncomm + 1
+                        /\ res' = "ok" /\ out' = Hooks(d) /\ UNCHANGED <<fails, rfails>>
+    /\ UNCHANGED <<cfg, queue, inhand, delta, cur, timer, wpc, nbatch, ndropped>>
 
 Submit(op) == SubmitBatched(op) \/ SubmitDirect(op)
 
 Arm(n) == /\ fails' = fails + n /\ out' = <<>>
-          /\ UNCHANGED <<cfg, pinset, queue, inhand, delta, cur, timer, wpc, accepted, ncomm, nbatch, tracked, res>>
+          /\ UNCHANGED <<cfg, pinset, queue, inhand, delta, cur, timer, wpc, rfails, accepted, taken, ndropped, ncomm, nbatch, tracked, res>>
+RArm(n) == /\ rfails' = rfails + n /\ out' = <<>>
+           /\ UNCHANGED <<cfg, pinset, queue, inhand, delta, cur, timer, wpc, fails, accepted, taken, ndropped, ncomm, nbatch, tracked, res>>
 
 (* batchWorker: case batchItem := <-css.batchItemCh, first half (timer reset) *)
 Take ==
@@ -139,17 +156,28 @@ Take ==
     /\ inhand' = <<Head(queue)>> /\ queue' = Tail(queue)
     /\ timer' = IF cur = 0 THEN "running" ELSE timer
     /\ wpc' = "add" /\ out' = <<>>
-    /\ UNCHANGED <<cfg, pinset, delta, cur, fails, accepted, ncomm, nbatch, tracked, res>>
+    /\ UNCHANGED <<cfg, pinset, delta, cur, fails, rfails, accepted, taken, ndropped, ncomm, nbatch, tracked, res>>
 
 (* batchingState.Add / Rm, batchCurSize++, size test *)
-Add ==
+AddOk ==
     /\ wpc = "add"
+    /\ ~(inhand[1].k = "unpin" /\ rfails > 0)
     /\ LET op == inhand[1] IN
          /\ delta' = IF op.k = "pin" THEN DeltaPut(delta, op.c, op.v) ELSE DeltaDel(delta, pinset, op.c)
          /\ out' = <<BatchedL(op, cur + 1)>>
+         /\ taken' = Append(taken, op)
     /\ cur' = cur + 1 /\ nbatch' = nbatch + 1 /\ inhand' = <<>>
     /\ wpc' = IF cur + 1 < cfg.maxsize THEN "select" ELSE "sizecommit"
-    /\ UNCHANGED <<cfg, pinset, queue, timer, fails, accepted, ncomm, tracked, res>>
+    /\ UNCHANGED <<cfg, pinset, queue, timer, fails, rfails, accepted, ndropped, ncomm, tracked, res>>
+
+(* batchingState.Rm fails (set.Rmv cannot query the store): the error is logged and the item is
+   DROPPED (`continue`): batchCurSize is not incremented, the timer armed in Take keeps running *)
+AddErr ==
+    /\ wpc = "add" /\ inhand[1].k = "unpin" /\ rfails > 0
+    /\ rfails' = rfails - 1 /\ inhand' = <<>> /\ wpc' = "select"
+    /\ ndropped' = ndropped + 1
+    /\ out' = <<ReadFailL, BatchErrL(inhand[1], cur)>>
+    /\ UNCHANGED <<cfg, pinset, queue, delta, cur, timer, fails, accepted, taken, ncomm, nbatch, tracked, res>>
 
 CommitEffect ==
     /\ pinset' = Merge(pinset, delta)
@@ -165,37 +193,47 @@ SizeCommitOk ==
     /\ out' = Hooks(delta) \o <<CommitL("size", cur, TRUE)>>
     /\ IF timer = "drained" THEN wpc' = "hung" /\ UNCHANGED <<timer, cur>>
                             ELSE wpc' = "select" /\ timer' = "stopped" /\ cur' = 0
-    /\ UNCHANGED <<cfg, queue, inhand, fails, accepted, res>>
+    /\ UNCHANGED <<cfg, queue, inhand, fails, rfails, accepted, taken, ndropped, res>>
 
 SizeCommitFail ==
     /\ wpc = "sizecommit" /\ fails > 0
     /\ fails' = fails - 1 /\ wpc' = "select"
     /\ out' = <<StoreFailL, CommitL("size", cur, FALSE)>>
-    /\ UNCHANGED <<cfg, pinset, queue, inhand, delta, cur, timer, accepted, ncomm, nbatch, tracked, res>>
+    /\ UNCHANGED <<cfg, pinset, queue, inhand, delta, cur, timer, rfails, accepted, taken, ndropped, ncomm, nbatch, tracked, res>>
 
 (* case <-batchTimer.C (the timer has fired; firing is not a separate step) *)
 AgeCommitOk ==
-    /\ cfg.batching /\ wpc = "select" /\ timer = "running" /\ fails = 0
+    /\ cfg.batching /\ wpc = "select" /\ timer = "running" /\ fails = 0 /\ cur > 0
     /\ CommitEffect
     /\ out' = Hooks(delta) \o <<CommitL("age", cur, TRUE)>>
     /\ timer' = "drained" /\ cur' = 0
-    /\ UNCHANGED <<cfg, queue, inhand, wpc, fails, accepted, res>>
+    /\ UNCHANGED <<cfg, queue, inhand, wpc, fails, rfails, accepted, taken, ndropped, res>>
 
 AgeCommitFail ==
-    /\ cfg.batching /\ wpc = "select" /\ timer = "running" /\ fails > 0
+    /\ cfg.batching /\ wpc = "select" /\ timer = "running" /\ fails > 0 /\ cur > 0
     /\ fails' = fails - 1
     /\ timer' = IF cfg.agereset THEN "running" ELSE "drained"
     /\ out' = <<StoreFailL, CommitL("age", cur, FALSE)>>
-    /\ UNCHANGED <<cfg, pinset, queue, inhand, delta, cur, wpc, accepted, ncomm, nbatch, tracked, res>>
+    /\ UNCHANGED <<cfg, pinset, queue, inhand, delta, cur, wpc, rfails, accepted, taken, ndropped, ncomm, nbatch, tracked, res>>
 
-Worker == Take \/ Add \/ SizeCommitOk \/ SizeCommitFail \/ AgeCommitOk \/ AgeCommitFail
+(* the timer fires with nothing batched (cur = 0 <=> the current delta is nil: the first item of the
+   batch was dropped by AddErr). As coded before the repair: Commit -> publishDelta(nil) -> go-ds-crdt
+   addDAGNode dereferences the nil delta: the panic kills the process (everything queued is lost). *)
+AgeEmpty ==
+    /\ cfg.batching /\ wpc = "select" /\ timer = "running" /\ cur = 0
+    /\ IF cfg.emptyskip THEN timer' = "drained" /\ UNCHANGED wpc
+                         ELSE wpc' = "crashed" /\ UNCHANGED timer
+    /\ out' = <<>>
+    /\ UNCHANGED <<cfg, pinset, queue, inhand, delta, cur, fails, rfails, accepted, taken, ndropped, ncomm, nbatch, tracked, res>>
+
+Worker == Take \/ AddOk \/ AddErr \/ SizeCommitOk \/ SizeCommitFail \/ AgeCommitOk \/ AgeCommitFail \/ AgeEmpty
 
 -----------------------------------------------------------------------------
 (* Property predicates (from the statement) *)
 
 \* accepted operations take effect in submission order, nothing lost, nothing
 \* reordered, refused / failed operations have no effect
-EffectIsPrefix == pinset = ApplyAll(EmptyPinset, SubSeq(accepted, 1, ncomm))
+EffectIsPrefix == pinset = ApplyAll(EmptyPinset, SubSeq(taken, 1, ncomm))
 
 \* every change of the pinset was handed to the tracker
 HooksCover == tracked = pinset
@@ -207,7 +245,10 @@ CommitRule == /\ (wpc = "sizecommit" => cur >= cfg.maxsize)
 \* worker is idle, the age timer is running (safety form of "cur > 0 ~> cur = 0")
 NotStranded == ~(wpc = "select" /\ nbatch > 0 /\ timer # "running")
 NoHang == wpc # "hung"
+\* the batch worker never takes the process down
+NoCrash == wpc # "crashed"
 
 Quiescent == queue = <<>> /\ inhand = <<>> /\ nbatch = 0 /\ wpc = "select"
-NothingLost == Quiescent => pinset = ApplyAll(EmptyPinset, accepted)
+\* (an operation dropped by AddErr after it was acknowledged IS lost: ndropped > 0 is reported separately)
+NothingLost == (Quiescent /\ ndropped = 0) => pinset = ApplyAll(EmptyPinset, accepted)
 =============================================================================
